@@ -28,7 +28,7 @@ static bool g_newline_given = false;
 int CPPPreprocessor::get() {
   if (_unget != '\0') { int c = _unget; _unget = '\0'; return c; }
   if (g_pos < g_nbytes) return (unsigned char)g_bytes[g_pos++];
-  if (!g_newline_given) { g_newline_given = true; _infile = nullptr; return '\n'; }
+  if (!g_newline_given) { g_newline_given = true; return '\n'; }   // (_infile is left in place: only get_file()/line numbers read it)
   return EOF;
 }
 int CPPPreprocessor::peek() {
